@@ -53,6 +53,11 @@ func genPolys(t *rapid.T, c *rapid.Generator[float64], maxN int) [][][]vkit.P2 {
 	polys := make([][][]vkit.P2, np)
 	for i := range polys {
 		nr := rapid.IntRange(1, 3).Draw(t, "nring")
+		if rapid.IntRange(0, 9).Draw(t, "manyrings") == 4 {
+			// round 13: 4 to 20 rings in one polygon (next to 8 and 16, where code that keeps per-ring data in fixed
+			// blocks changes its path); the even-odd rule over all rings is the oracle whatever they are
+			nr = rapid.IntRange(4, 20).Draw(t, "nringmany")
+		}
 		polys[i] = make([][]vkit.P2, nr)
 		for j := range polys[i] {
 			polys[i][j] = genRing(t, c, maxN)
@@ -394,7 +399,8 @@ func TestProp(t *testing.T) {
 			" Round 9: rings whose last vertex is one to three floating-point steps from the first ('nearly closed'); query points at exactly the height or abscissa of a vertex." +
 			" Round 10: receivers built with vkit.SharedGeom (point lists out of order and with gaps in one array, checked for changes)." +
 			" Round 11: one receiver in four has 15-257 vertices (16, 32, 48, 64, 96, 128, 192, 256 plus or minus one), all Inside or OnEdge except - two cases in three - one vertex at a drawn index." +
-			" Round 12: in one receiver case in six the receiver is a member of the multi-polygon argument itself (same memory).",
+			" Round 12: in one receiver case in six the receiver is a member of the multi-polygon argument itself (same memory)." +
+			" Round 13: one polygon in ten has 4 to 20 rings.",
 		Assumptions: []string{"coordinates k/4 with |k|<=33 make all cross products exact in float64, so the oracle is exact on the grid"},
 		Gen:         gen,
 		Run:         run,
